@@ -15,8 +15,8 @@ pub const DEF: PropDef = PropDef {
     id: "C13",
     run,
     oracle,
-    rule: "cases = V5/V7 packets (raw-byte records) and conformant V9/IPFIX histories whose templates contain a random subset, in random order, of the ten projected elements (source/destination address in the IPv4 or the IPv6 variant, ports, protocol, first/last switched resp. flowStart/EndSysUpTime, source/destination MAC; natural widths) mixed with 0..4 unrelated fields; 1..20 records per data set, several data sets and packets per buffer, options templates/data and template sets in between, optionally a truncated packet at the end (an Error element). Oracle: projection computed by the harness from the independent reference decode of the bytes: version; timestamp (sys_up_time for V5/V7/V9, export_time for IPFIX); one flow per data record in order; every member is Some(value derived from the wire bytes) iff the record's template has that element, else None; as_netflow_common must equal it member by member, Error elements must convert to Err, and parse_bytes_as_netflow_common_flowsets on a twin parser must equal the in-order concatenation over the non-error elements. non-trivial = a V9/IPFIX data set with >= 2 records whose template has >= 3 projected elements and >= 1 unrelated one; distinct by digest.",
-    assumptions: &["projected elements are generated with their natural widths (ports 2, protocol 1, times 4, addresses 4/16, MAC 6) and at most once per template"],
+    rule: "cases = V5/V7 packets (raw-byte records) and conformant V9/IPFIX histories whose templates contain a random subset, in random order, of the ten projected elements (source/destination address in the IPv4 or the IPv6 variant, ports, protocol, first/last switched resp. flowStart/EndSysUpTime, source/destination MAC; natural widths, IPFIX ports and sysUpTime also in the reduced sizes RFC 7011 6.2 allows) mixed with 0..4 unrelated fields (IPFIX: also enterprise-specific elements, some numbered like a projected element, which must not be projected); 1..20 records per data set, several data sets and packets per buffer, options templates/data and template sets in between, optionally a truncated packet at the end (an Error element). Oracle: projection computed by the harness from the independent reference decode of the bytes: version; timestamp (sys_up_time for V5/V7/V9, export_time for IPFIX); one flow per data record in order; every member is Some(value derived from the wire bytes) iff the record's template has that element, else None; as_netflow_common must equal it member by member, Error elements must convert to Err, and parse_bytes_as_netflow_common_flowsets on a twin parser must equal the in-order concatenation over the non-error elements. non-trivial = a V9/IPFIX data set with >= 2 records whose template has >= 3 projected elements and >= 1 unrelated one; distinct by digest.",
+    assumptions: &["projected elements are generated with their natural widths (ports 2, protocol 1, times 4, addresses 4/16, MAC 6; IPFIX ports also 1 and sysUpTime also 1-3 bytes) and at most once per template"],
 };
 
 #[derive(Debug, Clone, PartialEq, Default)]
@@ -44,6 +44,10 @@ fn ipaddr(b: &[u8]) -> Option<IpAddr> {
         }
         _ => None,
     }
+}
+/// big-endian unsigned value of a field sent in its natural or a reduced size
+fn be_uint(b: &[u8]) -> u64 {
+    b.iter().fold(0u64, |a, x| a << 8 | u64::from(*x))
 }
 fn mac(b: &[u8]) -> String {
     b.iter().map(|x| format!("{:02X}", x)).collect::<Vec<_>>().join(":")
@@ -84,14 +88,14 @@ fn expected_flows(r: &RefPkt) -> (Vec<Flow>, bool) {
                     27 => v6s = ipaddr(b),
                     12 => fl.dst_addr = ipaddr(b),
                     28 => v6d = ipaddr(b),
-                    7 => fl.src_port = Some(be16(b, 0)),
-                    11 => fl.dst_port = Some(be16(b, 0)),
+                    7 => fl.src_port = Some(be_uint(b) as u16),
+                    11 => fl.dst_port = Some(be_uint(b) as u16),
                     4 => {
                         fl.protocol_number = Some(b[0]);
                         fl.protocol_name_of = Some(b[0]);
                     }
-                    22 => fl.first_seen = Some(be32(b, 0)),
-                    21 => fl.last_seen = Some(be32(b, 0)),
+                    22 => fl.first_seen = Some(be_uint(b) as u32),
+                    21 => fl.last_seen = Some(be_uint(b) as u32),
                     56 => fl.src_mac = Some(mac(b)),
                     80 => fl.dst_mac = Some(mac(b)),
                     _ => {}
@@ -336,11 +340,12 @@ pub fn make_projected(v9: bool, sel: Vec<usize>, s6: bool, d6: bool, extra: Vec<
                             (12, 4)
                         }
                     }
-                    2 => (7, 2),
-                    3 => (11, 2),
+                    // IPFIX: ports and sysUpTime sometimes in a reduced size (RFC 7011 6.2)
+                    2 => (7, if !v9 && order >> 60 & 3 == 1 { 1 } else { 2 }),
+                    3 => (11, if !v9 && order >> 62 & 3 == 1 { 1 } else { 2 }),
                     4 => (4, 1),
-                    5 => (22, 4),
-                    6 => (21, 4),
+                    5 => (22, if v9 { 4 } else { [4u16, 4, 4, 4, 4, 1, 2, 3][(order >> 54 & 7) as usize] }),
+                    6 => (21, if v9 { 4 } else { [4u16, 4, 4, 4, 4, 1, 2, 3][(order >> 57 & 7) as usize] }),
                     7 => (56, 6),
                     _ => (80, 6),
                 };
@@ -352,6 +357,19 @@ pub fn make_projected(v9: bool, sel: Vec<usize>, s6: bool, d6: bool, extra: Vec<
                 } else {
                     &[(1, 4), (2, 8), (10, 2), (5, 1), (6, 1), (15, 4), (1000, 3), (82, 7), (23, 16), (57, 6), (81, 6), (62, 16), (153, 8), (82, 65535)]
                 };
+                if !v9 && b >= 200 {
+                    // enterprise-specific element; sometimes numbered like a projected one
+                    // (it must not be projected) and sometimes variable-length
+                    let ie = if c < 128 { [8u16, 12, 7, 4, 56, 22][(c as usize * 6) >> 7] } else { 1 + ((c as u16) << 4 | (d as u16 & 15)) };
+                    let len = match d % 4 {
+                        0 => 65535,
+                        1 => 4,
+                        2 => 1,
+                        _ => 6,
+                    };
+                    fields.push(FieldSpec { ie, len, ent: Some([9u32, 29305, 1, 0xffff_ffff][(a as usize) >> 6]) });
+                    continue;
+                }
                 let (ie, len) = pool[(a as usize * pool.len()) >> 8];
                 let _ = (b, c, d);
                 fields.push(FieldSpec { ie, len, ent: None });
